@@ -103,15 +103,45 @@ def _d11(prop, p, fails, rerun):
     return findings.fixed_by(p, dict(p, s=neutral), fails, rerun)
 
 
-_NAME_BLANK = re.compile(r'(\\begin\s*\{)(\s*)([^{}]*?)(\s*)(\}|$)')
+_BEGIN = re.compile(r'\\begin\s*\{')
+
+
+def _name_extent(s, start):
+    """[start, end) of the content of the brace group opened just before
+    `start` (nesting-aware; to the end of the string if it is unclosed)"""
+    i, depth = start, 1
+    while i < len(s) and depth:
+        c = s[i]
+        if c == '\\':
+            i += 2
+            continue
+        depth += (c == '{') - (c == '}')
+        i += 1
+    return start, (i - 1 if depth == 0 else len(s))
+
+
+def _strip_env_names(s):
+    """-> (found, s with blanks at the edges of every \\begin{..} name removed,
+    nested names included)"""
+    found = False
+    for _ in range(60):
+        for m in _BEGIN.finditer(s):
+            a, b = _name_extent(s, m.end())
+            inner = s[a:b]
+            if inner != inner.strip():
+                s = s[:a] + inner.strip() + s[b:]
+                found = True
+                break
+        else:
+            break
+    return found, s
 
 
 @findings.classifier('env-name-stripped')
 def _d15(prop, p, fails, rerun):
     """D15: blanks at the edges of an environment name are stripped
     (`\\begin{a }` prints `\\begin{a}`)."""
-    s = p['s']
-    if not any(m.group(2) or m.group(4) for m in _NAME_BLANK.finditer(s)):
+    found, neutral = _strip_env_names(p['s'])
+    if not found:
         return False
-    neutral = _NAME_BLANK.sub(lambda m: m.group(1) + m.group(3) + m.group(5), s)
     return findings.fixed_by(p, dict(p, s=neutral), fails, rerun)
